@@ -37,10 +37,10 @@ package pebbledb
 //@   call (*github.com/cockroachdb/pebble.Batch).Commit assert [C11.commit] held == 2
 //@   call (*github.com/cockroachdb/pebble.Batch).Commit update commits = commits + 1
 //@   call (*github.com/cockroachdb/pebble.Batch).Commit update commitOK = result == nil
-//@   call (*github.com/cockroachdb/pebble.DB).Set assert [C07.direct] false
-//@   call (*github.com/cockroachdb/pebble.DB).Delete assert [C07.direct] false
-//@   call (*github.com/cockroachdb/pebble.DB).DeleteRange assert [C07.direct] false
-//@   call (*github.com/cockroachdb/pebble.DB).Apply assert [C07.direct] false
+//@   call (*github.com/cockroachdb/pebble.DB).Set transitively assert [C07.direct] false
+//@   call (*github.com/cockroachdb/pebble.DB).Delete transitively assert [C07.direct] false
+//@   call (*github.com/cockroachdb/pebble.DB).DeleteRange transitively assert [C07.direct] false
+//@   call (*github.com/cockroachdb/pebble.DB).Apply transitively assert [C07.direct] false
 //@   ensures [C07.commit] result == nil ==> commits == 1 && commitOK
 //@   ensures [C07.commit] commits <= 1
 //@ end
@@ -70,9 +70,14 @@ package pebbledb
 //@   call (*github.com/cockroachdb/pebble.DB).NewIter transitively assert [C11.snap] false
 //@ end
 
+// C18 / C05: what is stored is what the caller passed: the store functions write no field of a signature they did
+// not allocate themselves, except assigning a missing ID.
+//@ protect detection.Signature.*!ID read true write [C18.intact] [C05.intact] fresh(self)
+
 //@ func (*PebbleScanner).AddSignature
-//@   protocol-only C06 C07 C10 C11
+//@   protocol-only C05 C06 C07 C10 C11 C18
 //@   noframe
+//@   ensures [C18.intact] [C05.intact] true
 //@   include lockproto
 //@   include commitproto
 //@   include writeset
@@ -82,8 +87,9 @@ package pebbledb
 //@   call (*github.com/cockroachdb/pebble.Batch).Commit assert [C06.write] (sigKey(sig.ID) in written) && (topoKey(sig.TopologyHash, sig.ID) in written) && (entrKey(sig.EntropyScore, sig.ID) in written) && (sig.FuzzyHash != "" ==> fuzzyKey(sig.FuzzyHash, sig.ID) in written)
 
 //@ func (*PebbleScanner).AddSignatures
-//@   protocol-only C06 C07 C10 C11
+//@   protocol-only C05 C06 C07 C10 C11 C18
 //@   noframe
+//@   ensures [C18.intact] [C05.intact] true
 //@   include lockproto
 //@   include commitproto
 
@@ -135,11 +141,17 @@ package pebbledb
 //@   include lockproto
 //@   include snapshotproto
 
+// C08 (exact mode scores exactly like full mode): the record is scored by MatchSignature with the scanned topology,
+// the function name and the scanner-wide tolerance read under the lock; the pre-filter uses the same tolerance rule;
+// only a result at or above the threshold is returned.
 //@ func (*PebbleScanner).ScanTopologyExact
-//@   protocol-only C06 C07 C10 C11
+//@   protocol-only C06 C07 C08 C10 C11
 //@   noframe
 //@   include lockproto
 //@   include snapshotproto
+//@   call detection.MatchSignature assert [C08.exact] a0 == topo && a1 == funcName && (isNaN(tolerance) || a3 == tolerance)
+//@   loop 1 invariant [C08.threshold] bestResult != nil ==> unit(bestResult.Confidence) && bestResult.Confidence >= threshold
+//@   return-ensures [C08.threshold] bestResult != nil ==> unit(bestResult.Confidence) && bestResult.Confidence >= threshold
 
 //@ func (*PebbleScanner).ScanTopologyWithSnapshot
 //@   noframe
@@ -155,9 +167,9 @@ package pebbledb
 //@   include lockproto
 //@   call (*github.com/cockroachdb/pebble.Batch).Commit assert [C07.sync] a1 == pebble.Sync
 //@   call (*github.com/cockroachdb/pebble.Batch).Commit assert [C11.commit] held == 2
-//@   call (*github.com/cockroachdb/pebble.DB).Set assert [C07.direct] false
-//@   call (*github.com/cockroachdb/pebble.DB).Delete assert [C07.direct] false
-//@   call (*github.com/cockroachdb/pebble.DB).DeleteRange assert [C07.direct] false
+//@   call (*github.com/cockroachdb/pebble.DB).Set transitively assert [C07.direct] false
+//@   call (*github.com/cockroachdb/pebble.DB).Delete transitively assert [C07.direct] false
+//@   call (*github.com/cockroachdb/pebble.DB).DeleteRange transitively assert [C07.direct] false
 
 // The per-hit closures of the scans fetch records from the snapshot they were given, never from the live database.
 //@ func (*PebbleScanner).ScanCandidates$1
@@ -181,6 +193,7 @@ package pebbledb
 //@   ghost fetched bool
 //@   init fetched = false
 //@   call (*github.com/cockroachdb/pebble.Snapshot).Get update fetched = true
+//@   call detection.MatchSignature assert [C08.exact] a0 == *topo && a1 == *funcName && (isNaN(*tolerance) || a3 == *tolerance)
 //@   ensures [C08.threshold] len(*results) >= old(len(*results)) && forall k in old(len(*results))..len(*results) :: unit((*results)[k].Confidence) && (*results)[k].Confidence >= *threshold
 //@   return-ensures [C08.prefilter] !fetched && !old((*seen)[sigID]) ==> isPacked && fabs(sigScore - (*topo).EntropyScore) > effTol(sigTol, *tolerance)
 
